@@ -449,6 +449,33 @@ def rule_bracket(ctx, prop):
     for cfg, prog in ctx.programs.items():
         preds = bracket_predicates(prog)
         rep.floor("bracket-string predicates", len(preds), 1, cfg)
+        # (c) the predicate itself: once it has seen `quote_type == Brackets` it answers true - whatever the level
+        # (`[=[x]=]` after `[` still starts with `[[`... no: `[` + `[=[` lexes as `[[` `=[`), the text or any other field
+        from paths import Enumerator, TooManyPaths
+        for pth in sorted(preds):
+            pf = prog.fn("stylua_lib", pth)
+            try:
+                pres = Enumerator(pf, summaries=False, track_cmp=True, max_paths=5000).run()
+            except TooManyPaths:
+                rep.anchor(False, f"{pth}: too many paths", cfg)
+                continue
+            badp = None
+            nb = 0
+            for st in pres:
+                hd = [v for k, v in st.hist if isinstance(v, str) and v == "Brackets" and k.endswith("quote_type")]
+                if not hd:
+                    continue
+                nb += 1
+                v0 = st.vals.get(0)
+                if v0 and v0[0] == "const" and v0[1] is False:
+                    extra = [f"{k.split('.')[-1]}={v}" for k, v in st.hist if k.startswith("int:") or k == "cmp"]
+                    badp = extra or ["another condition"]
+            rep.inst(f"stylua_lib::{pth} answers true for every long-bracket string", {"bracket_paths": nb}, cfg, ok=badp is None and nb >= 1)
+            if badp is not None:
+                rep.violation(f"stylua_lib::{pth} bracket-predicate-narrowed {','.join(map(str, badp))[:60]}",
+                              f"{pth} answers false for some string literal whose quote type is Brackets (further condition: "
+                              f"{badp}): `t[ [=[x]=] ]` is then printed as `t[[=[x]=]]`, which lexes as the long string `[[=[x]=]]` - "
+                              f"another program", pf.loc(), cfg)
         n = 0
         for f in prog.fns("stylua_lib"):
             if f.path.startswith("verify_ast") or "trivia" in f.path.split("::")[1:2] or f.impl_trait:
